@@ -33,7 +33,7 @@ struct SimHeap {
     std::vector<HeapIssue> issues;
     int cells_used = 0;
     int cur_op = -1;
-    int fail_at = 0;              // the fail_at-th allocation of the current op fails (0: none)
+    int fail_at = 0;              // k > 0: the k-th allocation of the current op fails; k < 0: the |k|-th and every later one; 0: none
     int allocs_in_op = 0;
     int frees_in_op = 0;
     int failed_in_op = 0;
